@@ -3,7 +3,7 @@
 # of colliding target pairs, and the configurable part of the repository's test corpus are configured with the
 # real `meson setup`; build.ninja is read by the independent reference reader (refninja) and the invariants of
 # the property are evaluated on the parsed graph and on meson-info/intro-*.json.
-import glob, json, os, shutil, sys
+import glob, itertools, json, os, shutil, sys
 from verif.core import Check, pmap, run_main, scratch_root, REPO
 from verif import projgen as pg, refninja as rn
 
@@ -323,6 +323,47 @@ def run_tests_family(job):
     return ('tests', kind, outcome, v, st, {'files': files, 'args': []})
 
 
+# ---- one generator.process() result, several consumers --------------------------------------------------------------------
+GEN_CONSUMERS = ['exe', 'lib', 'ct-input', 'ct-arg']
+
+
+def genshare_cases():
+    out = []
+    for n in (2, 3):
+        for seq in itertools.product(GEN_CONSUMERS, repeat=n):
+            out.append(seq)
+    return out
+
+
+def run_genshare(job):
+    """The rules of a generated list live in the private directory of each consumer: every consumer, in every order, must get its own
+    producing statements (oracle: the manifest is closed - every input exists or is produced)."""
+    from verif import mesonproc as mp
+    idx, seq = job
+    root = os.path.join(scratch_root(), 'c04g.%d' % os.getpid())
+    shutil.rmtree(root, ignore_errors=True)
+    L = ["project('gs', 'c')", "cp = find_program('cp')",
+         "gen = generator(cp, output: '@BASENAME@.c', arguments: ['@INPUT@', '@OUTPUT@'])",
+         "g = gen.process('tables.in', 'more.in')"]
+    files = {'tables.in': 'int tables(void) { return 1; }\n', 'more.in': 'int more(void) { return 2; }\n',
+             'main.c': 'int main(void) { return 0; }\n', 'lib.c': 'int libf(void) { return 3; }\n'}
+    for i, kind in enumerate(seq):
+        if kind == 'exe':
+            L.append("executable('e%d', 'main.c', g)" % i)
+        elif kind == 'lib':
+            L.append("static_library('l%d', 'lib.c', g)" % i)
+        elif kind == 'ct-input':
+            L.append("custom_target('c%d', input: g, output: 'c%d.txt', command: [cp, '@INPUT0@', '@OUTPUT@'])" % (i, i))
+        else:
+            L.append("custom_target('c%d', output: 'c%d.txt', command: [cp, g, '@OUTPUT@'])" % (i, i))
+    files['meson.build'] = '\n'.join(L) + '\n'
+    mp.write_tree(root, files)
+    res = mp.run_meson(['setup', 'b'], root)
+    outcome, v, st = judge_setup(res, os.path.join(root, 'b'))
+    shutil.rmtree(root, ignore_errors=True)
+    return ('genshare', ' -> '.join(seq), outcome, v, st, {'files': files, 'args': []})
+
+
 def dispatch(job):
     kind = job[0]
     if kind == 'unity':
@@ -333,6 +374,8 @@ def dispatch(job):
         return run_collision(job[1:])
     if kind == 'tests':
         return run_tests_family(job[1:])
+    if kind == 'genshare':
+        return run_genshare(job[1:])
     return run_corpus(job[1:])
 
 
@@ -389,6 +432,10 @@ def main():
     if ck.want('tests'):
         for kind in ('test', 'benchmark'):
             jobs.append(('tests', idx, kind))
+            idx += 1
+    if ck.want('genshare'):
+        for seq in genshare_cases():
+            jobs.append(('genshare', idx, seq))
             idx += 1
     if ck.want('corpus'):
         dirs = corpus_dirs()
